@@ -10,7 +10,7 @@
 
    [target b a] is the sign with address [a] on bus [b] (C08_target_def). *)
 From Flipdot Require Import Tactics.
-From Flipdot Require Import Base Message Page SignType VSign Controller Bitmap VSignP ClosedLoopP ApiP.
+From Flipdot Require Import Base Message Page SignType VSign Controller Bitmap VSignP ClosedLoopP ApiP WeaveP.
 Local Open Scope N_scope.
 
 (* ---------------------------------------------------------------------------------------- *)
@@ -351,3 +351,64 @@ Example C08_ex_api :
         end))
   = (Done Manual, [(Some 7, Some false, Some true, Some true, Some false)]).
 Proof. vm_compute. reflexivity. Qed.
+
+(* ---------------------------------------------------------------------------------------- *)
+(* Page sources that talk on the bus while they are drained (model: send_pages_gen / send_pages_with) *)
+
+(* Sign 5 configured as 30x7 and sign 3 configured likewise (it picked the block up, see C08_ex_run).  A source that says
+   goodbye to sign 3 before it yields the page: sign 3 is reset, sign 5 gets exactly the page. *)
+Example C08_ex_talking_source :
+  (let (b1, _) := run_bus (configure 5 Max3000Dash30x7) C08_ex_bus in
+   let (b2, o2) := run_bus (send_pages_with 5 [([CopShutDown 3], C08_ex_page)]) b1 in
+   (o2, map v_state b2, map v_pages b2))
+  = (Done Manual, [Unconfigured; PageLoaded], [[]; [C08_ex_page]]).
+Proof. vm_compute. reflexivity. Qed.
+
+(* The limit of the theorem below, shown by the model: data chunks carry no address, so a source that sends pages to
+   ANOTHER sign while its own transfer is open pours them into both -- sign 5 does not end up with the page list it
+   was sent (the call even fails: the count does not match). *)
+Example C08_ex_source_that_transfers :
+  (let (b1, _) := run_bus (configure 5 Max3000Dash30x7) C08_ex_bus in
+   let (b2, o2) := run_bus (send_pages_with 5 [([CopSendPages 3 [C08_ex_page]], C08_ex_page)]) b1 in
+   (o2, map v_pages b2))
+  <> (Done Manual, [[]; [C08_ex_page]]).
+Proof. vm_compute. discriminate. Qed.
+
+(* For every source whose conversations are programs that address other signs only ([fpre]: any number of such
+   programs, each under [catch]): the pages arrive bit-exact and the sign ends as after a plain send_pages. *)
+Theorem C08_pages_arrive_from_talking_source : forall b a src ps s,
+  NoDup (map v_addr b) -> Forall VInv0 b -> target b a = Some s ->
+  receive_pixels_legal (v_state s) = true -> 0 < v_w s -> 0 < v_h s ->
+  Forall (fun p => p_w p = v_w s /\ p_h p = v_h s
+                   /\ nlen (p_bytes p) = total_bytes (v_w s) (v_h s)) ps ->
+  total_bytes (v_w s) (v_h s) <= 65536 ->
+  N.of_nat (length ps) * (total_bytes (v_w s) (v_h s) / 16) < 65536 ->
+  Forall (fun it => fpre a (fst it)) src -> map snd src = map p_bytes ps ->
+  exists b' s',
+    run_bus (send_pages_gen a src) b = (b', Done (v_style s)) /\ target b' a = Some s'
+    /\ v_pages s' = ps
+    /\ v_state s' = match v_style s with Manual => PageLoaded | Automatic => ShowingPages end
+    /\ v_type s' = v_type s /\ (v_w s', v_h s') = (v_w s, v_h s)
+    /\ v_pending s' = [] /\ v_chunks s' = 0
+    /\ v_addr s' = a /\ v_style s' = v_style s
+    /\ Forall VInv0 b' /\ map v_addr b' = map v_addr b.
+Proof. exact closed_send_pages_foreign_source. Qed.
+Print Assumptions C08_pages_arrive_from_talking_source.
+
+(* The instance for calls of the Sign API: a source that shuts other signs down. *)
+Theorem C08_pages_arrive_with_foreign_calls : forall b a items s,
+  NoDup (map v_addr b) -> Forall VInv0 b -> target b a = Some s ->
+  receive_pixels_legal (v_state s) = true -> 0 < v_w s -> 0 < v_h s ->
+  Forall (fun p => p_w p = v_w s /\ p_h p = v_h s
+                   /\ nlen (p_bytes p) = total_bytes (v_w s) (v_h s)) (map snd items) ->
+  total_bytes (v_w s) (v_h s) <= 65536 ->
+  N.of_nat (length items) * (total_bytes (v_w s) (v_h s) / 16) < 65536 ->
+  Forall (fun it => Forall (foreign_call a) (fst it)) items ->
+  exists b' s',
+    run_bus (send_pages_with a items) b = (b', Done (v_style s)) /\ target b' a = Some s'
+    /\ v_pages s' = map snd items
+    /\ v_state s' = match v_style s with Manual => PageLoaded | Automatic => ShowingPages end
+    /\ v_type s' = v_type s /\ (v_w s', v_h s') = (v_w s, v_h s)
+    /\ Forall VInv0 b' /\ map v_addr b' = map v_addr b.
+Proof. exact closed_send_pages_with_foreign_calls. Qed.
+Print Assumptions C08_pages_arrive_with_foreign_calls.
